@@ -67,8 +67,9 @@ def run_tlc(module, constants, workdir, invariants=(), properties=(), action_con
         cfg.append("NEXT %s" % next_)
     cfg.append("CONSTANTS")
     for k, v in constants.items():
-        lines.append("mc_%s == %s" % (k, v))
-        cfg.append("  %s <- mc_%s" % (k, k))
+        lines.append("mc_%s == %s" % (k, v))          # k may carry parameters: "Allowed(h, c)"
+        base = k.split("(")[0]
+        cfg.append("  %s <- mc_%s" % (base, base))
     if extra_defs:
         lines.append(extra_defs)
     lines.append("====")
